@@ -130,7 +130,12 @@ impl BricksDomain {
                         }
                         // --Step 4-- Check whether two successive bricks have equal content.
                         // If so, merge them with the same content and add their min and max values together.
-                        else if current_brick.get_sequence() == next_brick.get_sequence() {
+                        // A brick pair of the form [S]^{1,1}[S]^{0,M} is exactly the result of Step 5 and is not merged again.
+                        else if current_brick.get_sequence() == next_brick.get_sequence()
+                            && !(current_brick.get_min() == 1
+                                && current_brick.get_max() == 1
+                                && next_brick.get_min() == 0)
+                        {
                             let merged_brick =
                                 current_brick.merge_bricks_with_equal_content(next_brick);
                             normalized[index] = BrickDomain::Value(merged_brick);
